@@ -109,7 +109,7 @@ def apply_op(pool: dict, op: list) -> str:
     name = op[0]
     try:
         if name == "new":
-            pool[op[1]] = lw.Circuit(op[2])
+            pool[op[1]] = lw.Circuit(_sp(op, 2, op[2]))
         elif name == "unitary":
             u = np.array([[complex(GQ.parse(x)) for x in r] for r in op[2]], dtype=complex)
             pool[op[1]] = lw.Unitary(u)
